@@ -84,6 +84,7 @@ fn main() {
             let timeout: u64 = args.get(5).map(|s| s.parse().unwrap()).unwrap_or(20);
             c08::run(path, stride, fits, timeout)
         }
+        "proxy" => fittrace::run_proxy(args.get(2).map(|s| s.parse().unwrap()).unwrap_or(100)),
         "pairs" => fittrace::run_pairs(args.get(2).map(|s| s.parse().unwrap()).unwrap_or(100)),
         "parjac" => {
             let prefix = args.get(2).expect("output prefix");
